@@ -108,6 +108,11 @@ func orchestrate(cfg runCfg) int {
 			}
 		}()
 		inflight := -1 // index of the call whose prefix was printed but whose line is not finished
+		// A call "hangs" when it has BURNT the deadline in CPU time (a spinning loop), not merely when the wall
+		// clock passed it: on a loaded machine a child can be starved for seconds.  A call that uses no CPU at
+		// all (blocked) is given 20 deadlines of wall-clock time.
+		cpuAtCall := procCPU(cmd.Process.Pid)
+		var callStart time.Time
 		var num []byte
 		inNum := false
 		timedOut := false
@@ -126,6 +131,8 @@ func orchestrate(cfg runCfg) int {
 					case b == 2:
 						inNum = false
 						inflight, _ = strconv.Atoi(string(num))
+						cpuAtCall = procCPU(cmd.Process.Pid)
+						callStart = time.Now()
 					case inNum:
 						num = append(num, b)
 					default:
@@ -137,8 +144,11 @@ func orchestrate(cfg runCfg) int {
 				}
 			case <-time.After(deadline):
 				if inflight >= 0 {
-					timedOut = true
-					done = true
+					burnt := procCPU(cmd.Process.Pid) - cpuAtCall
+					if burnt >= deadline*8/10 || time.Since(callStart) >= 20*deadline {
+						timedOut = true
+						done = true
+					}
 				}
 				// no call in flight: the child is generating; keep waiting
 			}
@@ -184,3 +194,24 @@ func parseHung(s string) (map[int]bool, int) {
 }
 
 var _ = io.EOF
+
+// procCPU: user+system CPU time consumed so far by a process (from /proc/<pid>/stat; 100 ticks per second).
+func procCPU(pid int) time.Duration {
+	b, err := os.ReadFile(fmt.Sprintf("/proc/%d/stat", pid))
+	if err != nil {
+		return 0
+	}
+	// the command name (field 2) may contain spaces: cut after the last ')'
+	str := string(b)
+	i := strings.LastIndexByte(str, ')')
+	if i < 0 {
+		return 0
+	}
+	f := strings.Fields(str[i+1:])
+	if len(f) < 13 {
+		return 0
+	}
+	ut, _ := strconv.ParseInt(f[11], 10, 64)
+	st, _ := strconv.ParseInt(f[12], 10, 64)
+	return time.Duration(ut+st) * 10 * time.Millisecond
+}
